@@ -36,7 +36,8 @@ RouteSet(po) == {[pfx |-> r.pfx, lp |-> r.lp, comms |-> Range(r.comms)] : r \in 
 SameWalk(j, k) == j >= 1 /\ Trace[j].w = Trace[k].w /\ Trace[j].n + 1 = Trace[k].n
 
 (* ... and no handler call that failed is waiting to be retried *)
-Settled(o) == HasCfg(o) /\ AnnB(o) \subseteq Range(o.since) /\ o.errS = <<>>
+(* ... or nothing at all is pending (quiescent): what is offered now is final *)
+Settled(o) == HasCfg(o) /\ (AnnB(o) \subseteq Range(o.since) \/ o.q) /\ o.errS = <<>>
 
 ----------------------------------------------------------------------------
 (* C05 *)
@@ -48,6 +49,19 @@ C05_SessionsExact(o) ==
        \* a peer whose latest session start failed (injected) need not be up
        /\ ((PeerShouldRun([name |-> p, nsel |-> o.peers[p].nsel], SeenMe(o)) /\ p \notin Range(o.sf)) => o.peers[p].up)
        /\ (o.peers[p].up => RouteSet(o.peers[p]) = Routes(ld, AnnB(o), IpsOf(o), p))
+
+(* how SessionsExact fails: a route the reference has is not offered ("missing"), a route is
+   offered that the reference does not have ("extra"), a session is up / down wrongly ("live") *)
+SxKinds(o) ==
+  IF ~Settled(o) THEN {} ELSE
+  LET ld == LoadedOf(o)
+      ups == {p \in DOMAIN o.peers : o.peers[p].up}
+  IN (IF \E p \in ups : Routes(ld, AnnB(o), IpsOf(o), p) \ RouteSet(o.peers[p]) # {} THEN {"missing"} ELSE {}) \cup
+     (IF \E p \in ups : RouteSet(o.peers[p]) \ Routes(ld, AnnB(o), IpsOf(o), p) # {} THEN {"extra"} ELSE {}) \cup
+     (IF \E p \in DOMAIN o.peers :
+           LET run == PeerShouldRun([name |-> p, nsel |-> o.peers[p].nsel], SeenMe(o))
+           IN (o.peers[p].up /\ ~run) \/ (run /\ p \notin Range(o.sf) /\ ~o.peers[p].up)
+      THEN {"live"} ELSE {})
 
 (* a route offered before the step that no announced service produces any   *)
 (* more is gone after the step (same session)                               *)
@@ -102,6 +116,7 @@ Next == i < N /\ i' = i + 1
 Judge ==
   LET f == Fails(i) IN
   /\ (f = {} \/ PrintT(ToJson([fails |-> f, line |-> i, w |-> Trace[i].w, step |-> Trace[i].n,
-                                fm |-> IF "C09.FreshModel" \in f THEN FreshKinds(Trace[i]) ELSE {}])))
+                                fm |-> (IF "C09.FreshModel" \in f THEN FreshKinds(Trace[i]) ELSE {}) \cup
+                                       (IF "C05.SessionsExact" \in f THEN SxKinds(Trace[i]) ELSE {})])))
   /\ (i < N \/ PrintT(ToJson([done |-> N])))
 =============================================================================
